@@ -1751,6 +1751,10 @@ class ConnectionHeartbeat(Thread):
                         with connection.lock:
                             connection.in_flight -= 1
                         connection.reset_idle()
+                        if not connection.is_control_connection:
+                            # the pool may have replaced the connection while the heartbeat was out:
+                            # let it re-check whether the trashed connection can be closed now
+                            f.owner.return_connection(connection, stream_was_orphaned=True)
                     except Exception as e:
                         log.warning("Heartbeat failed for connection (%s) to %s",
                                     id(connection), connection.endpoint)
